@@ -129,8 +129,31 @@ impl From<Instant> for Uptime {
     }
 }
 
+/// Verification hook (off unless built with `--cfg tokio_rs_tracing_verif`): lets a test
+/// harness substitute the instant that `SystemTime::format_time` reads from the wall clock,
+/// per thread.
+#[cfg(tokio_rs_tracing_verif)]
+#[doc(hidden)]
+pub mod verif {
+    use std::cell::Cell;
+    std::thread_local! {
+        static CLOCK: Cell<Option<std::time::SystemTime>> = const { Cell::new(None) };
+    }
+    /// Overrides (or, with `None`, restores) the wall clock seen by this thread.
+    pub fn set_clock(t: Option<std::time::SystemTime>) {
+        CLOCK.with(|c| c.set(t));
+    }
+    pub(super) fn clock() -> Option<std::time::SystemTime> {
+        CLOCK.with(|c| c.get())
+    }
+}
+
 impl FormatTime for SystemTime {
     fn format_time(&self, w: &mut Writer<'_>) -> fmt::Result {
+        #[cfg(tokio_rs_tracing_verif)]
+        if let Some(t) = verif::clock() {
+            return write!(w, "{}", datetime::DateTime::from(t));
+        }
         write!(
             w,
             "{}",
